@@ -247,6 +247,14 @@ func (s *state) setOuter(key ir.Value, value Nilness) {
 	}
 	v := s.m[num]
 	v.Outer = value
+	if v.Inner == 0 && types.IsInterface(key.Type()) {
+		// We're describing an interface value without knowing anything about
+		// the value it holds. The zero Nilness is the identity of merges and
+		// must not survive as the description of a value that exists:
+		// merging it with, say, AlwaysNil from another path would claim
+		// AlwaysNil for both.
+		v.Inner = MaybeNil
+	}
 	s.m[num] = v
 }
 
